@@ -486,6 +486,14 @@ func (o *Oracles) onDurableChange(w *World, e *Event) {
 			for i := 0; i <= idx; i++ {
 				if !o.isHandled(w, sc.ID, i) {
 					w.violate("C02", "durable-past-unhandled", fmt.Sprintf("store committed position index %d for source %s but record %d is not confirmed by all destinations, dead-lettered or filtered", idx, sc.ID, i))
+					// C07: if the record is one the DLQ itself refused, the failed record was given up:
+					// neither delivered nor dead-lettered, yet the pipeline moved past it
+					for n := 1; n <= sys.sessions; n++ {
+						if o.dlqState[delivKey{sc.ID, i, n}] == "failed" && !w.cfg.Hostile {
+							w.violate("C07", "dlq-rejected-record-passed-over", fmt.Sprintf("record %s/%d was rejected by a destination and its dead-letter write was refused too, yet position index %d beyond it was committed: the failed record is in neither a destination nor the DLQ", sc.ID, i, idx))
+							break
+						}
+					}
 					break
 				}
 			}
